@@ -138,7 +138,7 @@ pub struct WriterJob<'a> {
 }
 
 /// Runs one writer scenario. Returns the final bytes (if any) for callers that need them.
-pub fn run_writer(j: &Value, t: &mut Trace, run_id: usize) -> Option<Vec<u8>> {
+pub fn run_writer(j: &Value, t: &mut Trace, run_id: usize) -> Option<(Vec<u8>, Vec<i32>)> {
     let fe = j["fe"].as_str().unwrap_or("sample");
     let rate = j["rate"].as_u64().unwrap_or(44100) as u32;
     let bps = j["bps"].as_u64().unwrap_or(16) as u32;
@@ -387,5 +387,6 @@ pub fn run_writer(j: &Value, t: &mut Trace, run_id: usize) -> Option<Vec<u8>> {
         filev["pcm"] = Value::from(whole.iter().map(|s| *s as i64).collect::<Vec<_>>());
     }
     t.emit(filev);
-    matches!(fin, Ok(Ok(()))).then_some(bytes)
+    let whole_v = whole.to_vec();
+    matches!(fin, Ok(Ok(()))).then_some((bytes, whole_v))
 }
